@@ -57,7 +57,8 @@ func splitType(s string) (pkg, name string) {
 	return s[:i], s[i+1:]
 }
 
-func litMatches(info *types.Info, e ast.Expr, sel emitSel) bool {
+func litMatches(fn *Func, e ast.Expr, sel emitSel) bool {
+	info := fn.Info()
 	e = ast.Unparen(e)
 	if u, ok := e.(*ast.UnaryExpr); ok && u.Op == token.AND {
 		e = ast.Unparen(u.X)
@@ -83,6 +84,28 @@ func litMatches(info *types.Info, e ast.Expr, sel emitSel) bool {
 	case *ast.SelectorExpr:
 		return x.Sel.Name == kv[1]
 	case *ast.Ident:
+		switch kv[1] {
+		case "$var": // some local variable (as opposed to a field of something)
+			v, ok := info.ObjectOf(x).(*types.Var)
+			return ok && !v.IsField() && v.Parent() != fn.Pkg.Types.Scope()
+		case "$key": // the key variable of an enclosing range (or counting) loop
+			o := info.ObjectOf(x)
+			for c := ast.Node(cl); c != nil; c = fn.Prog.parents[c] {
+				switch l := c.(type) {
+				case *ast.RangeStmt:
+					if k, ok := l.Key.(*ast.Ident); ok && info.ObjectOf(k) == o {
+						return true
+					}
+				case *ast.ForStmt:
+					if rs := countingAsRange(l); rs != nil {
+						if k, ok := rs.Key.(*ast.Ident); ok && info.ObjectOf(k) == o {
+							return true
+						}
+					}
+				}
+			}
+			return false
+		}
 		return x.Name == kv[1]
 	case *ast.BasicLit:
 		s, _ := constString(info, x)
@@ -117,6 +140,15 @@ func findEmissionsIn(fn *Func, body ast.Node, sel emitSel) []ast.Node {
 		}
 		switch sel.kind {
 		case emAppendCall, emAppendLit, emAppendIdent:
+			// an indexed fill of a pre-sized slice (xs[i] = T{…}) emits like an append
+			if as, isAs := n.(*ast.AssignStmt); isAs && sel.kind == emAppendLit && len(as.Lhs) == 1 && len(as.Rhs) == 1 && as.Tok == token.ASSIGN {
+				if ix, isIx := ast.Unparen(as.Lhs[0]).(*ast.IndexExpr); isIx {
+					if _, isSlice := info.TypeOf(ix.X).Underlying().(*types.Slice); isSlice && litMatches(fn, as.Rhs[0], sel) {
+						out = append(out, as)
+					}
+				}
+				return true
+			}
 			call, ok := n.(*ast.CallExpr)
 			if !ok || !isBuiltinCall(info, call, "append") {
 				return true
@@ -138,7 +170,7 @@ func findEmissionsIn(fn *Func, body ast.Node, sel emitSel) []ast.Node {
 						out = append(out, call)
 					}
 				}
-				if sel.kind == emAppendLit && (litMatches(info, a, sel) || (sel.ctor && ctorLitMatches(fn, a, sel))) {
+				if sel.kind == emAppendLit && (litMatches(fn, a, sel) || (sel.ctor && ctorLitMatches(fn, a, sel))) {
 					out = append(out, call)
 				}
 				if sel.kind == emAppendIdent {
@@ -149,7 +181,7 @@ func findEmissionsIn(fn *Func, body ast.Node, sel emitSel) []ast.Node {
 			}
 		case emLit:
 			if e, ok := n.(ast.Expr); ok {
-				if _, isLit := ast.Unparen(e).(*ast.CompositeLit); isLit && litMatches(info, e, sel) {
+				if _, isLit := ast.Unparen(e).(*ast.CompositeLit); isLit && litMatches(fn, e, sel) {
 					out = append(out, n)
 				}
 			}
@@ -211,7 +243,7 @@ func findEmissionsIn(fn *Func, body ast.Node, sel emitSel) []ast.Node {
 		case emReturnLit:
 			if rs, ok := n.(*ast.ReturnStmt); ok {
 				for _, res := range rs.Results {
-					if litMatches(info, res, sel) || (sel.ctor && ctorLitMatches(fn, res, sel)) {
+					if litMatches(fn, res, sel) || (sel.ctor && ctorLitMatches(fn, res, sel)) {
 						out = append(out, rs)
 					}
 				}
@@ -263,7 +295,8 @@ func findEmissionsIn(fn *Func, body ast.Node, sel emitSel) []ast.Node {
 			if as, ok := n.(*ast.AssignStmt); ok && len(as.Lhs) == len(as.Rhs) {
 				for i, l := range as.Lhs {
 					if id, ok := ast.Unparen(l).(*ast.Ident); ok && (sel.name == "" || identIs(fn, id, sel.name)) {
-						if sel.argIs == "" || sameText(fn, exprStr(as.Rhs[i]), sel.argIs) || sameText(fn, exprStr(fn.InlineLocals(as.Rhs[i], 2)), sel.argIs) {
+						if sel.argIs == "" || sameText(fn, exprStr(as.Rhs[i]), sel.argIs) || sameText(fn, exprStr(fn.InlineLocals(as.Rhs[i], 1)), sel.argIs) ||
+							sameText(fn, exprStr(fn.InlineLocals(as.Rhs[i], 2)), sel.argIs) || sameText(fn, exprStr(fn.InlineLocals(as.Rhs[i], 3)), sel.argIs) {
 							out = append(out, as)
 						}
 					}
@@ -351,6 +384,7 @@ const (
 	gVia                          // every path from the success edge of sub[0] to the emission crosses an assignment to <…>.name
 	gLastUse                      // nothing reachable after the emission reads <…>.name (the emission is the last access)
 	gParamSame                    // `name` is a parameter of the function that is never re-assigned
+	gFlagFrom                     // a boolean that is true only where field .name was seen true (the field itself, a local flag set under it, or a helper returning such a flag)
 	gInRangeFrom                  // inside a loop over <…>.name[rhs:] (a range over the slice expression, or a counting loop starting at rhs)
 )
 
@@ -388,6 +422,7 @@ func gdomcallArg(name, arg string) guard { return guard{kind: gDomCall, name: na
 func gdomcall(name string) guard         { return guard{kind: gDomCall, name: name} }
 func glastuse(name string) guard         { return guard{kind: gLastUse, name: name} }
 func gparam(name string) guard           { return guard{kind: gParamSame, name: name} }
+func gflag(field string) guard           { return guard{kind: gFlagFrom, name: field, pol: true} }
 func grangeFrom(name, lo string) guard   { return guard{kind: gInRangeFrom, name: name, rhs: lo} }
 
 func (g guard) String() string {
@@ -396,6 +431,8 @@ func (g guard) String() string {
 		return "last access of ." + g.name
 	case gParamSame:
 		return "parameter " + g.name + " unchanged"
+	case gFlagFrom:
+		return "flag from ." + g.name
 	case gInRangeFrom:
 		return "range ." + g.name + "[" + g.rhs + ":]"
 	}
@@ -685,6 +722,8 @@ func atomMatches(fn *Func, a *Atom, g guard) bool {
 		if call, ok := e.(*ast.CallExpr); ok && calleeFull(info, call) == "strings.HasPrefix" {
 			return a.Pol == g.pol
 		}
+	case gFlagFrom:
+		return a.Pol && flagDerivedFrom(fn, e, g.name, 0)
 	case gField:
 		switch x := e.(type) {
 		case *ast.SelectorExpr:
@@ -710,6 +749,9 @@ func atomMatches(fn *Func, a *Atom, g guard) bool {
 			}
 		}
 	case gCmp:
+		if c := bytesEqualAsCmp(info, e); c != nil {
+			e = c
+		}
 		if be0, ok := e.(*ast.BinaryExpr); ok {
 			if sameText(fn, cmpText(e), g.name) {
 				return a.Pol == g.pol
@@ -732,10 +774,19 @@ func atomMatches(fn *Func, a *Atom, g guard) bool {
 				if b, ok := t.Underlying().(*types.Basic); ok && b.Info()&types.IsInteger != 0 {
 					if rowE, err := parser.ParseExpr(g.name); err == nil {
 						if rb, ok := ast.Unparen(rowE).(*ast.BinaryExpr); ok {
-							for _, cc := range intCmpCanon(be0) {
-								for _, rc := range intCmpCanon(rb) {
-									if sameText(fn, cc.text, rc.text) {
-										return (a.Pol != cc.neg) == (g.pol != rc.neg)
+							// the comparison as written, and with single-definition locals inlined
+							forms := []*ast.BinaryExpr{be0}
+							for _, alt := range inlinedVariants(fn, be0) {
+								if ab, ok := ast.Unparen(alt).(*ast.BinaryExpr); ok {
+									forms = append(forms, ab)
+								}
+							}
+							for _, form := range forms {
+								for _, cc := range intCmpCanon(form) {
+									for _, rc := range intCmpCanon(rb) {
+										if sameText(fn, cc.text, rc.text) {
+											return (a.Pol != cc.neg) == (g.pol != rc.neg)
+										}
 									}
 								}
 							}
@@ -874,7 +925,7 @@ func guardHolds(p5c *p5, fn *Func, at ast.Node, g guard) bool {
 						bound = ast.Unparen(def)
 					}
 				}
-				if c, ok := bound.(*ast.CallExpr); ok && isLenCall(fn.Info(), c) && lastSel(c.Args[0]) == g.name {
+				if c, ok := bound.(*ast.CallExpr); ok && isLenCall(fn.Info(), c) && (lastSel(c.Args[0]) == g.name || aliasSel(fn, c.Args[0]) == g.name) {
 					found = true
 				}
 			}
@@ -1410,6 +1461,51 @@ func runRows(prop string) func(p *Prog, r *Report) {
 							}
 							up(fn, d)
 						}
+						judgeExit := func(xs ast.Stmt, what string, emAtoms map[string]bool) {
+							for _, a := range guardsAtBranch(p, fn, xs).AllAtoms() {
+								if os.Getenv("HCLVERIF_ROWDEBUG") != "" && a != nil && a.E != nil {
+									fmt.Printf("ROWDEBUG0 %s %s atom=%s expanded=%v em=%v\n", rw.id, p.Pos(xs), exprStr(a.E), a.Expanded, emAtoms[atomIdent(fn, a.E)])
+								}
+								if a == nil || a.E == nil || a.Expanded || emAtoms[atomIdent(fn, a.E)] {
+									continue
+								}
+								unrelated := unrelatedAssertion(fn, a, em)
+								if os.Getenv("HCLVERIF_ROWDEBUG") != "" {
+									fmt.Printf("ROWDEBUG %s %s atom=%s unrelated=%v safe=%v\n", rw.id, p.Pos(xs), exprStr(a.E), unrelated, safeAtom(fn, a))
+								}
+								if safeAtom(fn, a) && !unrelated {
+									continue
+								}
+								allowed := false
+								for _, g := range rw.need {
+									if g.kind == gAny {
+										for _, sg := range g.sub {
+											if atomMatchesEitherPol(fn, a, sg) {
+												allowed = true
+											}
+										}
+									} else if atomMatchesEitherPol(fn, a, g) {
+										allowed = true
+									}
+								}
+								txt := cmpText(a.E)
+								for _, ex := range rw.exact {
+									if sameText(fn, txt, ex) || lastSel(a.E) == ex {
+										allowed = true
+									}
+									if !allowed && strings.ContainsAny(ex, "<>=") && atomMatchesEitherPol(fn, a, gcmp(ex)) {
+										allowed = true
+									}
+								}
+								if unrelated {
+									allowed = false
+									txt = "a successful assertion that has nothing to do with what is emitted here (" + txt + ")"
+								}
+								if !allowed {
+									extra = append(extra, "items with "+txt+" "+what+" at "+p.Pos(xs)+")")
+								}
+							}
+						}
 						if len(extra) == 0 {
 							// early exits of the enclosing loop that skip this emission for some items
 							for _, rs := range enclosingRanges(p, em, fn.Body) {
@@ -1442,53 +1538,34 @@ func runRows(prop string) func(p *Prog, r *Report) {
 												}
 											}
 										}
-										for _, a := range guardsAtBranch(p, fn, x).AllAtoms() {
-											if os.Getenv("HCLVERIF_ROWDEBUG") != "" && a != nil && a.E != nil {
-												fmt.Printf("ROWDEBUG0 %s %s atom=%s expanded=%v em=%v\n", rw.id, p.Pos(x), exprStr(a.E), a.Expanded, emAtoms[atomIdent(fn, a.E)])
-											}
-											if a == nil || a.E == nil || a.Expanded || emAtoms[atomIdent(fn, a.E)] {
-												continue
-											}
-											unrelated := unrelatedAssertion(fn, a, em)
-											if os.Getenv("HCLVERIF_ROWDEBUG") != "" {
-												fmt.Printf("ROWDEBUG %s %s atom=%s unrelated=%v safe=%v\n", rw.id, p.Pos(x), exprStr(a.E), unrelated, safeAtom(fn, a))
-											}
-											if safeAtom(fn, a) && !unrelated {
-												continue
-											}
-											allowed := false
-											for _, g := range rw.need {
-												if g.kind == gAny {
-													for _, sg := range g.sub {
-														if atomMatchesEitherPol(fn, a, sg) {
-															allowed = true
-														}
-													}
-												} else if atomMatchesEitherPol(fn, a, g) {
-													allowed = true
-												}
-											}
-											txt := cmpText(a.E)
-											for _, ex := range rw.exact {
-												if sameText(fn, txt, ex) || lastSel(a.E) == ex {
-													allowed = true
-												}
-												if !allowed && strings.ContainsAny(ex, "<>=") && atomMatchesEitherPol(fn, a, gcmp(ex)) {
-													allowed = true
-												}
-											}
-											if unrelated {
-												allowed = false
-												txt = "a successful assertion that has nothing to do with what is emitted here (" + txt + ")"
-											}
-											if !allowed {
-												extra = append(extra, "items with "+txt+" leave the loop early ("+x.Tok.String()+" at "+p.Pos(x)+")")
-											}
-										}
+										judgeExit(x, "leave the loop early ("+x.Tok.String(), emAtoms)
 									}
 									return true
 								})
 							}
+						}
+						if len(extra) == 0 && fn.Lit == nil && bareFuncName(fn) != rw.fn && len(enclosingRanges(p, em, fn.Body)) == 0 {
+							// the emission sits in a helper that is called once per item: a return
+							// in front of it (on a path that could otherwise go on to it) skips the
+							// emission for some items, as a continue in the caller's loop would
+							emAtoms := map[string]bool{}
+							for _, a := range fn.GuardsAt(em).AllAtoms() {
+								if a != nil && a.E != nil {
+									emAtoms[atomIdent(fn, a.E)] = true
+								}
+							}
+							ast.Inspect(fn.Body, func(k ast.Node) bool {
+								switch x := k.(type) {
+								case *ast.FuncLit:
+									return false
+								case *ast.ReturnStmt:
+									if x.Pos() > em.Pos() || nodeContains(x, em) {
+										return true
+									}
+									judgeExit(x, "leave the helper early (return", emAtoms)
+								}
+								return true
+							})
 						}
 						if len(extra) > 0 {
 							r.Add("E1.row", fn.Name, construct, p.Pos(em), Violated,
@@ -1560,7 +1637,7 @@ func runRows(prop string) func(p *Prog, r *Report) {
 							}
 							allowed := false
 							for _, w := range rw.pos {
-								if sameText(fn, cmpText(c), w) {
+								if sameText(fn, cmpText(c), w) || sameText(fn, cmpText(fn.InlineLocals(c, 1)), w) || sameText(fn, cmpText(fn.InlineLocals(c, 2)), w) {
 									allowed = true
 								}
 							}
@@ -2545,6 +2622,142 @@ func okFlagCall(fn *Func, a *Atom) *ast.CallExpr {
 				}
 			}
 		}
+	}
+	return nil
+}
+
+// flagDerivedFrom: is the boolean e true only where field .field was seen true? Accepted
+// shapes: the field itself; a local flag whose every non-false assignment is `true` under
+// the field (or another derived flag); a call of a module function whose every non-false
+// return is one of these.
+func flagDerivedFrom(fn *Func, e ast.Expr, field string, depth int) bool {
+	if depth > 3 {
+		return false
+	}
+	info := fn.Info()
+	under := func(f *Func, at ast.Node) bool {
+		return f.GuardsAt(at).Holds(func(a *Atom) bool { return atomMatches(f, a, gf(field)) })
+	}
+	isBoolLit := func(x ast.Expr, name string) bool {
+		id, ok := ast.Unparen(x).(*ast.Ident)
+		return ok && id.Name == name && info.Uses[id] == types.Universe.Lookup(name)
+	}
+	switch x := ast.Unparen(e).(type) {
+	case *ast.SelectorExpr:
+		return canonId(x.Sel.Name) == field
+	case *ast.Ident:
+		o := info.ObjectOf(x)
+		if _, isVar := o.(*types.Var); !isVar || fn.isParam(o) {
+			return false
+		}
+		n := 0
+		for f := fn; f != nil; f = f.Parent {
+			for _, asn := range f.Assignments(o) {
+				var rhs ast.Expr
+				switch s := asn.(type) {
+				case *ast.AssignStmt:
+					if len(s.Lhs) != len(s.Rhs) {
+						return false
+					}
+					for i, l := range s.Lhs {
+						if isIdentObj(info, l, o) {
+							rhs = s.Rhs[i]
+						}
+					}
+				case *ast.ValueSpec:
+					if len(s.Values) == 0 {
+						continue // zero value: false
+					}
+					for i, id := range s.Names {
+						if info.ObjectOf(id) == o && i < len(s.Values) {
+							rhs = s.Values[i]
+						}
+					}
+				default:
+					return false
+				}
+				if rhs == nil {
+					return false
+				}
+				if isBoolLit(rhs, "false") {
+					continue
+				}
+				n++
+				if isBoolLit(rhs, "true") {
+					if !under(f, asn) {
+						return false
+					}
+					continue
+				}
+				if !flagDerivedFrom(f, rhs, field, depth+1) {
+					return false
+				}
+			}
+		}
+		return n > 0
+	case *ast.CallExpr:
+		cf := calleeOf(info, x)
+		if cf == nil {
+			return false
+		}
+		t := fn.Prog.FuncOf[cf]
+		if t == nil || t.Body == nil {
+			return false
+		}
+		n, bad := 0, false
+		ast.Inspect(t.Body, func(nd ast.Node) bool {
+			if _, isLit := nd.(*ast.FuncLit); isLit {
+				return false
+			}
+			ret, ok := nd.(*ast.ReturnStmt)
+			if !ok {
+				return true
+			}
+			if len(ret.Results) != 1 {
+				bad = true
+				return true
+			}
+			r := ret.Results[0]
+			tinfo := t.Info()
+			if id, ok := ast.Unparen(r).(*ast.Ident); ok && id.Name == "false" && tinfo.Uses[id] == types.Universe.Lookup("false") {
+				return true
+			}
+			n++
+			if id, ok := ast.Unparen(r).(*ast.Ident); ok && id.Name == "true" && tinfo.Uses[id] == types.Universe.Lookup("true") {
+				if !under(t, ret) {
+					bad = true
+				}
+				return true
+			}
+			if !flagDerivedFrom(t, r, field, depth+1) {
+				bad = true
+			}
+			return true
+		})
+		return n > 0 && !bad
+	}
+	return false
+}
+
+// bytesEqualAsCmp: bytes.Equal(x, []byte("lit")) read as string(x) == "lit".
+func bytesEqualAsCmp(info *types.Info, e ast.Expr) ast.Expr {
+	call, ok := ast.Unparen(e).(*ast.CallExpr)
+	if !ok || len(call.Args) != 2 || calleeFull(info, call) != "bytes.Equal" {
+		return nil
+	}
+	for i := 0; i < 2; i++ {
+		conv, ok := ast.Unparen(call.Args[i]).(*ast.CallExpr)
+		if !ok || len(conv.Args) != 1 {
+			continue
+		}
+		if tv, ok := info.Types[conv.Fun]; !ok || !tv.IsType() {
+			continue
+		}
+		lit, ok := ast.Unparen(conv.Args[0]).(*ast.BasicLit)
+		if !ok || lit.Kind != token.STRING {
+			continue
+		}
+		return &ast.BinaryExpr{X: &ast.CallExpr{Fun: ast.NewIdent("string"), Args: []ast.Expr{call.Args[1-i]}}, Op: token.EQL, Y: lit}
 	}
 	return nil
 }
